@@ -431,72 +431,76 @@ Section C02ext.
 
   (* ---------------- RungeKuttaNystrom *)
   Section RKN.
-    Context {Fd : Type}.
+    Context {Fd : Type} {A : Type}.       (* Fd: what eval_f returns; A: the attributes (charges, masses) a particle object carries *)
     Variable M : nat.
     Variable dt t0 : K.
     Variable nodes : nat -> K.
     Variable QI Qx : nat -> nat -> K.
-    Variable feval : V -> V -> K -> Fd.
-    Variable build_f : Fd -> V -> V -> K -> V.
-    Variable boris : V -> K -> Fd -> Fd -> V -> V -> V.
+    Variable feval : A -> V -> V -> K -> Fd.
+    Variable build_f : Fd -> A -> V -> V -> K -> V.
+    Variable boris : V -> K -> Fd -> Fd -> A -> V -> V -> V.
     Notation tn := (rkn_tn kadd kmul dt t0 nodes).
     Notation acc := (rkn_acc kadd kmul dt t0 nodes build_f).
 
-    Theorem C02_rkn_explicit_stage_form : forall st : @rkn_st K X Fd,
+    Theorem C02_rkn_explicit_stage_form : forall st : @rkn_st K X Fd A,
       let r := rkn_update kO kadd kmul M dt t0 nodes QI Qx false feval build_f boris st in
-      (forall j, j = 0 \/ M < j -> rp r j = rp st j /\ rv r j = rv st j /\ rf r j = rf st j) /\
+      (forall j, j = 0 \/ M < j -> ra r j = ra st j /\ rp r j = rp st j /\ rv r j = rv st j /\ rf r j = rf st j) /\
       rf r M = rf st M /\
       forall m, 1 <= m <= M ->
-        (m < M -> rf r m = feval (rp r m) (rv r m) (tn m)) /\
+        ra r m = ra st 0 /\
+        (m < M -> rf r m = feval (ra r m) (rp r m) (rv r m) (tn m)) /\
         forall x,
           rp r m x = rp st 0 x +! dt *! nodes m *! rv st 0 x +! dt *! dt *! sumf (fun j => Qx m j *! acc r j x) 1 (m - 1) /\
           rv r m x = rv st 0 x +! dt *! sumf (fun j => QI m j *! acc r j x) 1 (m - 1).
     Proof. exact (rkn_explicit_stage_form kO kI kadd kmul ksub kopp Rth M dt t0 nodes QI Qx feval build_f boris). Qed.
 
-    Theorem C02_rkn_end_point_form : forall (st : @rkn_st K X Fd) (w wbar : nat -> K),
+    Theorem C02_rkn_end_point_form : forall (st : @rkn_st K X Fd A) (w wbar : nat -> K),
       1 <= M -> nodes M = kI ->
       (forall j, 1 <= j <= M - 1 -> QI M j = w j /\ Qx M j = wbar j) ->
       let r := rkn_update kO kadd kmul M dt t0 nodes QI Qx false feval build_f boris st in
       let e := rkn_end_point M r in
-      e = (rp r M, rv r M) /\
+      e = (rp r M, rv r M) /\ rkn_end_attr M r = ra st 0 /\
       forall x,
         fst e x = rp st 0 x +! dt *! rv st 0 x +! dt *! dt *! sumf (fun j => wbar j *! acc r j x) 1 (M - 1) /\
         snd e x = rv st 0 x +! dt *! sumf (fun j => w j *! acc r j x) 1 (M - 1).
     Proof. exact (rkn_end_point_form kO kI kadd kmul ksub kopp Rth M dt t0 nodes QI Qx feval build_f boris). Qed.
 
-    Theorem C02_rkn_velocity_verlet_form : forall st : @rkn_st K X Fd,
+    Theorem C02_rkn_velocity_verlet_form : forall st : @rkn_st K X Fd A,
       nodes 1 = kI -> nodes 3 = kI -> Qx 3 2 = kO ->
-      (forall p v v' t, feval p v t = feval p v' t) ->
-      (forall c c' d fo fn p v, (forall x, c x = c' x) -> forall x, boris c d fo fn p v x = boris c' d fo fn p v x) ->
+      (forall a p v v' t, feval a p v t = feval a p v' t) ->
+      (forall c c' d fo fn a p v, (forall x, c x = c' x) -> forall x, boris c d fo fn a p v x = boris c' d fo fn a p v x) ->
       let r := rkn_update kO kadd kmul 3 dt t0 nodes QI Qx true feval build_f boris st in
       let e := rkn_end_point 3 r in
-      let F0 := feval (rp st 0) (rv st 0) t0 in
-      let a := build_f F0 (rp r 1) (rv r 1) (t0 +! dt *! nodes 1) in
-      (forall x, rp r 1 x = rp st 0 x +! dt *! rv st 0 x) /\ rv r 1 = rv st 0 /\
+      let a0 := ra st 0 in
+      let F0 := feval a0 (rp st 0) (rv st 0) t0 in
+      let a := build_f F0 a0 (rp r 1) (rv r 1) (t0 +! dt *! nodes 1) in
+      (forall x, rp r 1 x = rp st 0 x +! dt *! rv st 0 x) /\ rv r 1 = rv st 0 /\ rkn_end_attr 3 r = a0 /\
       (forall x, fst e x = rp st 0 x +! dt *! rv st 0 x +! dt *! dt *! Qx 3 1 *! a x) /\
-      (forall x, snd e x = boris (fun _ => kO) dt F0 (feval (fst e) (rv st 0) (t0 +! dt)) (rp st 0) (rv st 0) x).
+      (forall x, snd e x = boris (fun _ => kO) dt F0 (feval a0 (fst e) (rv st 0) (t0 +! dt)) a0 (rp st 0) (rv st 0) x).
     Proof. exact (rkn_velocity_verlet_form kO kI kadd kmul ksub kopp Rth dt t0 nodes QI Qx feval build_f boris). Qed.
 
-    Theorem C02_rkn_implicit_three_node_form : forall st : @rkn_st K X Fd,
+    Theorem C02_rkn_implicit_three_node_form : forall st : @rkn_st K X Fd A,
+      let a0 := ra st 0 in
       let x0 := rp st 0 in
       let v0 := rv st 0 in
-      let F0 := feval x0 v0 t0 in
+      let F0 := feval a0 x0 v0 t0 in
       let tend := t0 +! dt in
       let times0 := fun (v : V) => (fun x => v x *! kO) : V in
       let x1 : V := vadd kadd x0 (vscale kmul (dt *! nodes 1) v0) in
-      let a1 := build_f F0 x1 v0 (tn 1) in
+      let a1 := build_f F0 a0 x1 v0 (tn 1) in
       let x2 : V := vadd kadd (vadd kadd x0 (vscale kmul (dt *! nodes 2) v0)) (vscale kmul (dt *! dt *! Qx 2 1) a1) in
-      let v2 := boris (times0 v0) dt F0 (feval x2 v0 tend) x0 v0 in
-      let a2 := build_f F0 x2 v2 (tn 2) in
+      let v2 := boris (times0 v0) dt F0 (feval a0 x2 v0 tend) a0 x0 v0 in
+      let a2 := build_f F0 a0 x2 v2 (tn 2) in
       let x3a : V := vadd kadd (vadd kadd x0 (vscale kmul (dt *! nodes 3) v0)) (vscale kmul (dt *! dt *! Qx 3 1) a1) in
-      let v3a := boris (times0 v0) dt F0 (feval x3a v0 tend) x0 v0 in
+      let v3a := boris (times0 v0) dt F0 (feval a0 x3a v0 tend) a0 x0 v0 in
       let x3 : V := vadd kadd x3a (vscale kmul (dt *! dt *! Qx 3 2) a2) in
-      let v3 := boris (times0 v3a) dt F0 (feval x3 v3a tend) x0 v0 in
+      let v3 := boris (times0 v3a) dt F0 (feval a0 x3 v3a tend) a0 x0 v0 in
       let r := rkn_update kO kadd kmul 3 dt t0 nodes QI Qx true feval build_f boris st in
       (rp r 0 = x0 /\ rv r 0 = v0) /\ (rp r 1 = x1 /\ rv r 1 = v0) /\ (rp r 2 = x2 /\ rv r 2 = v2) /\ (rp r 3 = x3 /\ rv r 3 = v3) /\
       (rf r 0 = F0 /\ rf r 1 = F0 /\ rf r 2 = F0 /\ rf r 3 = F0) /\
-      (forall j, 3 < j -> rp r j = rp st j /\ rv r j = rv st j /\ rf r j = rf st j) /\
-      rkn_end_point 3 r = (x3, v3).
+      (ra r 0 = a0 /\ ra r 1 = a0 /\ ra r 2 = a0 /\ ra r 3 = a0) /\
+      (forall j, 3 < j -> ra r j = ra st j /\ rp r j = rp st j /\ rv r j = rv st j /\ rf r j = rf st j) /\
+      rkn_end_point 3 r = (x3, v3) /\ rkn_end_attr 3 r = a0.
     Proof. exact (rkn_implicit_three_node_form kO kadd kmul dt t0 nodes QI Qx feval build_f boris). Qed.
   End RKN.
 
